@@ -5,6 +5,7 @@
 //! observes with independent oracles.
 
 pub mod base;
+pub mod explore;
 pub mod fixedkit;
 pub mod keytab;
 pub mod oracle;
